@@ -362,7 +362,49 @@ def graph_functions(repo, outdir, write):
     return emit(repo, outdir, "GraphGen.lean", hdr, graph_jobs(repo), write)
 
 
-ALL = [("ClosestGen.lean", closest_functions), ("CentroidGen.lean", centroid_functions), ("GraphGen.lean", graph_functions)]
+
+# ---------------------------------------------------------------------------------------------
+# C14: validation/utils.rs
+
+VUT = "geo/src/algorithm/validation/utils.rs"
+ORI2 = {"Orientation::Collinear": "Ori.col"}
+
+
+def valid_jobs(repo):
+    return [
+        # coordinates that may be non-finite are `V.XPt` (components `XNum`); `f64::is_finite` = `XNum.isFinite`
+        dict(file=VUT, hdr=r"pub\(crate\) fn check_coord_is_not_finite<T: CoordFloat>\(geom: &Coord<T>\) -> bool \{", name="checkCoordIsNotFinite",
+             params="(geom : V.XPt)", ret="Bool", opts={"accessors": {"is_finite": "{}.isFinite"}}),
+        # `RemoveRepeatedPoints for LineString` = `Vec::dedup` on the coordinates with the derived (f64) equality of `Coord`:
+        # `V.dedupBy V.ceq` (GeoModel/Validation.lean); the `.0` of the resulting LineString is the list itself
+        dict(file=VUT, hdr=r"pub\(crate\) fn check_too_few_points<T: CoordFloat>\(geom: &LineString<T>, is_ring: bool\) -> bool \{", name="checkTooFewPoints",
+             params="(geom : V.XRing) (is_ring : Bool)", ret="Bool", resub=[(r"\(V\.dedupBy V\.ceq geom\)\.1\b", "(V.dedupBy V.ceq geom)")],
+             opts={"accessors": {"remove_repeated_points": "(V.dedupBy V.ceq {})", "len": "{}.length"}}),
+        # finite coordinates from here on (the model calls these only on rings whose coordinates are all finite); a `Line` is the
+        # pair of its end points; the robust `orient2d` = `Geo.orient` (sign of the exact determinant)
+        dict(file=VUT, hdr=r"fn chained_lines_overlap<F: GeoFloat>\(line: &Line<F>, other_line: &Line<F>\) -> bool \{", name="chainedLinesOverlap",
+             params="(line other_line : Pt × Pt)", ret="Bool", paths=ORI2,
+             funcs={"F::Ker::orient2d": "Geo.orient", "same_side": "(same_side {0} {1} {2})"},
+             subst=[("line.start", "line.1"), ("line.end", "line.2"), ("other_line.start", "other_line.1"), ("other_line.end", "other_line.2")],
+             opts={"type_names": {"F": "Rat"}}),
+        # `lines().enumerate()` = the consecutive pairs with their indices; `Line: Intersects<Line>` = Gen.lineLine (Kernel, tied in C02)
+        dict(file=VUT, hdr=r"pub\(crate\) fn linestring_has_self_intersection<F: GeoFloat>\(geom: &LineString<F>\) -> bool \{",
+             name="linestringHasSelfIntersection", params="(geom : List Pt)", ret="Bool",
+             funcs={".intersects": "(Gen.lineLine {0}.1 {0}.2 {1}.1 {1}.2)", "chained_lines_overlap": "chainedLinesOverlap"},
+             subst=[("line.start", "line.1"), ("line.end", "line.2"), ("other_line.start", "other_line.1"), ("other_line.end", "other_line.2")],
+             opts={"accessors": {"lines": "(Geo.segs {})", "enumerate": "(Gen.enumerate {})"}}),
+    ]
+
+
+def valid_functions(repo, outdir, write):
+    hdr = ["/- generated by translator/rs2lean.py (jobs2, statement fragment) from %s; do not edit -/" % VUT,
+           "import GeoModel.Validation", "import GeoModel.TRANPrelude", "import GeoModel.Gen.Kernel", "",
+           "namespace Geo.Gen", "open Geo", "set_option linter.unusedVariables false", ""]
+    return emit(repo, outdir, "ValidGen.lean", hdr, valid_jobs(repo), write)
+
+
+ALL = [("ClosestGen.lean", closest_functions), ("CentroidGen.lean", centroid_functions), ("GraphGen.lean", graph_functions),
+       ("ValidGen.lean", valid_functions)]
 
 
 def run(repo, outdir, write):
